@@ -29,7 +29,7 @@ func genDeny(r *vc.Rand) *DenyScn {
 	n := r.Range(3, 7)
 	kinds := []string{"refuse"}
 	if sc.AllowWait {
-		kinds = []string{"cancel", "cancel", "peer-cancel", "pending", "accept-unregister"}
+		kinds = []string{"cancel", "cancel", "cancel-early", "cancel-early", "peer-cancel", "pending", "accept-unregister"}
 	}
 	for i := 0; i < n; i++ {
 		sc.Cycles = append(sc.Cycles, vc.Pick(r, kinds))
@@ -78,11 +78,27 @@ func runDeny(sc *DenyScn) (res denyResult) {
 	px := nw.Proxy(b, a)
 	live := func() int { return nw.Proxy(a, b).Live() + px.Live() }
 	accepts := func() int32 { return nw.Proxy(a, b).Accepts.Load() + px.Accepts.Load() }
+	lastNote := func(who, ski string) int {
+		last := -1
+		for _, e := range nw.L.Events() {
+			if e.Who == who && e.Kind == "pairing" && e.Ski == ski {
+				last = e.N
+			}
+		}
+		return last
+	}
 	checkpoint := func(kind string) bool {
 		// quiet for longer than the notification delay, nothing new started, states unchanged
 		n0 := accepts()
 		sa, sb := a.PairingState(b.SKI), b.PairingState(a.SKI)
 		time.Sleep(900 * time.Millisecond)
+		// a notification that is merely late (loaded machine) is no verdict: while nothing else changes, wait
+		// generously for the last notification to show the current state; one that is stale stays stale
+		WaitFor(8*time.Second, func() bool {
+			la, lb := lastNote("A", b.SKI), lastNote("B", a.SKI)
+			return (la == sa || la == -1 && sa == 0) && (lb == sb || lb == -1 && sb == 0) ||
+				accepts() != n0 || sa != a.PairingState(b.SKI) || sb != b.PairingState(a.SKI)
+		})
 		if accepts() != n0 || sa != a.PairingState(b.SKI) || sb != b.PairingState(a.SKI) {
 			tl("not settled after " + kind)
 			return false
@@ -90,6 +106,15 @@ func runDeny(sc *DenyScn) (res denyResult) {
 		nw.L.Add("A", "checkpoint-pairing", b.SKI, kind, sa)
 		nw.L.Add("B", "checkpoint-pairing", a.SKI, kind, sb)
 		return true
+	}
+	// user operations on A: note when one is issued while a TCP connection between the hubs is live but A's
+	// registry does not hold a connection for B yet (the inbound connection runs, reports states, and is
+	// registered a moment later): the operation then does not reach that connection
+	opA := func(name string, f func()) {
+		if _, ok := a.H().VerifRegistry()[b.SKI]; !ok && live() > 0 {
+			nw.L.Add("H", "op-before-registration", "", name, 0)
+		}
+		f()
 	}
 	for i, kind := range sc.Cycles {
 		nw.L.Add("H", "cycle", "", kind, i)
@@ -114,8 +139,18 @@ func runDeny(sc *DenyScn) (res denyResult) {
 		case "cancel":
 			WaitFor(5*time.Second, func() bool { return a.PairingState(b.SKI) == 3 })
 			time.Sleep(time.Duration(50*(i%4)) * time.Millisecond)
-			a.Cancel(b.SKI)
+			opA("cancel", func() { a.Cancel(b.SKI) })
 			WaitFor(5*time.Second, func() bool { return live() == 0 })
+		case "cancel-early":
+			// the user cancels the very moment the request shows up as pending: the inbound connection may
+			// still be on its way into the hub's registry
+			deadline := time.Now().Add(5 * time.Second)
+			for a.PairingState(b.SKI) != 3 && time.Now().Before(deadline) {
+				time.Sleep(20 * time.Microsecond)
+			}
+			opA("cancel", func() { a.Cancel(b.SKI) })
+			// the request is either aborted, or - if the cancel came before the connection was registered - stays pending
+			WaitFor(3*time.Second, func() bool { return live() == 0 })
 		case "peer-cancel":
 			WaitFor(5*time.Second, func() bool { return a.PairingState(b.SKI) == 3 })
 			time.Sleep(time.Duration(50*(i%4)) * time.Millisecond)
@@ -123,20 +158,28 @@ func runDeny(sc *DenyScn) (res denyResult) {
 			WaitFor(5*time.Second, func() bool { return live() == 0 })
 		case "accept-unregister":
 			WaitFor(5*time.Second, func() bool { return a.PairingState(b.SKI) == 3 })
-			a.Register(b.SKI)
+			opA("register", func() { a.Register(b.SKI) })
 			WaitFor(8*time.Second, func() bool { return a.PairingState(b.SKI) == 7 && b.PairingState(a.SKI) == 7 })
 			if checkpoint("accepted") {
 				res.Timeline = append(res.Timeline, "checkpoint accepted")
 			}
-			a.Unregister(b.SKI)
+			opA("unregister", func() { a.Unregister(b.SKI) })
 			WaitFor(5*time.Second, func() bool { return live() == 0 })
 		}
 		if checkpoint(kind) {
 			tl("checkpoint " + kind)
 		}
+		if kind == "cancel-early" && live() > 0 {
+			// still pending: end it before the next cycle
+			opA("cancel", func() { a.Cancel(b.SKI) })
+			WaitFor(5*time.Second, func() bool { return live() == 0 })
+			if checkpoint("cancel-after-early-cancel") {
+				tl("checkpoint cancel-after-early-cancel")
+			}
+		}
 		if kind == "pending" {
 			// end the waiting before the next cycle
-			a.Cancel(b.SKI)
+			opA("cancel", func() { a.Cancel(b.SKI) })
 			WaitFor(5*time.Second, func() bool { return live() == 0 })
 			if checkpoint("cancel-after-pending") {
 				tl("checkpoint cancel-after-pending")
@@ -155,11 +198,27 @@ func evalDeny(col *vc.Collector, sc *DenyScn, res denyResult) {
 		return
 	}
 	wit := map[string]any{"scenario": sc, "timeline": res.Timeline, "log": Compact(res.Evs, 300)}
+	// cycles in which an operation of A's user came before the inbound connection was registered
+	hit := map[int]bool{}
+	cyc := -1
+	for _, e := range res.Evs {
+		if e.Who == "H" && e.Kind == "cycle" {
+			cyc = e.N
+		}
+		if e.Who == "H" && e.Kind == "op-before-registration" {
+			hit[cyc] = true
+			col.Count(prop, "deny:operations-issued-before-the-connection-was-registered", 1)
+		}
+	}
 	for _, who := range []string{"A", "B"} {
 		last := -1
 		var seq []string
 		mark := 0
+		cyc := -1
 		for _, e := range res.Evs {
+			if e.Who == "H" && e.Kind == "cycle" {
+				cyc = e.N
+			}
 			if e.Who != who {
 				continue
 			}
@@ -175,7 +234,13 @@ func evalDeny(col *vc.Collector, sc *DenyScn, res denyResult) {
 					continue // never notified, nothing to report: state none
 				}
 				if last != e.N {
-					col.Violation(prop, fmt.Sprintf("last-notification-stale:%d-vs-%d", last, e.N),
+					sig := fmt.Sprintf("last-notification-stale:%d-vs-%d", last, e.N)
+					if who == "A" && hit[cyc] {
+						// recorded finding: cancel / register / unregister do not reach an inbound connection that is
+						// running but not registered yet
+						sig = "last-notification-stale:operation-before-the-inbound-connection-was-registered"
+					}
+					col.Violation(prop, sig,
 						fmt.Sprintf("%s: at the settled point after a '%s' run the last ServicePairingDetailUpdate state is %d, PairingDetailForSki says %d (sequence %v)", who, e.S, last, e.N, seq), sc.ID, wit)
 				}
 			}
